@@ -283,15 +283,21 @@ def run(pid, build_replay):
                 ("method name length", b"DIDL\x01\x69\x01" + _leb(n)), ("future entry length", b"DIDL\x01\x5f" + _leb(n))]
     big.append(("type table length one above the limit", b"DIDL" + _leb(10001) + b"\x6e\x7f" * 10001 + b"\x00"))
     import tempfile
-    with tempfile.TemporaryFile("w+") as fin, tempfile.TemporaryFile("w+") as fout:
-        fin.write("\n".join(f"rds {m.hex()} X=nat o(nat)" for _, m in big) + "\n")
-        fin.seek(0)
-        pr = subprocess.Popen([exe], stdin=fin, stdout=fout, stderr=subprocess.DEVNULL)
-        _, status, ru = os.wait4(pr.pid, 0)          # resource usage of exactly this process
-        pr.returncode = os.waitstatus_to_exitcode(status)
-        rss_kb = ru.ru_maxrss
-        fout.seek(0)
-        big_outs = [l.strip() for l in fout.read().splitlines()]
+    # peak memory of the probe process: taken from /usr/bin/time (GNU time reports the wait4 figure of the process it starts).
+    # A direct wait4 from here would be wrong: Linux carries the high-water mark of the forked copy of THIS process over the
+    # exec, so the figure would never be below this Python process's own size.
+    with tempfile.TemporaryDirectory() as td:
+        fin, fout, frss = os.path.join(td, "in"), os.path.join(td, "out"), os.path.join(td, "rss")
+        open(fin, "w").write("\n".join(f"rds {m.hex()} X=nat o(nat)" for _, m in big) + "\n")
+        timed = os.path.exists("/usr/bin/time")
+        cmdl = (["/usr/bin/time", "-f", "%M", "-o", frss] if timed else []) + [exe]
+        with open(fin) as fi, open(fout, "w") as fo:
+            pr = subprocess.run(cmdl, stdin=fi, stdout=fo, stderr=subprocess.DEVNULL, timeout=600)
+        big_outs = [l.strip() for l in open(fout).read().splitlines()]
+        try:
+            rss_kb = int(open(frss).read().split()[-1]) if timed else -1
+        except (OSError, ValueError, IndexError):
+            rss_kb = -1
     class _PB:
         returncode = pr.returncode
     pb = _PB()
@@ -303,7 +309,7 @@ def run(pid, build_replay):
             if o != "err":
                 big_fail = ("err", o, (what, m))
                 break
-        if not big_fail and rss_kb > 400 * 1024:
+        if not big_fail and rss_kb > 400 * 1024:      # -1 = not measured (no /usr/bin/time): the criterion is then not applied
             big_fail = ("peak memory below 400 MiB for 21 messages of at most 20 KiB", f"{rss_kb} KiB", big[0])
     p = subprocess.run([exe], input="\n".join(cmds) + "\n", capture_output=True, text=True, timeout=1800)
     outs = [l.strip() for l in p.stdout.splitlines()]
